@@ -28,9 +28,9 @@ PROP = dict(
          "after the backquote key / Ctrl-0/1, easy-symbol output, conversions) compared with the SAME context run ALONE in a fresh "
          "process (stats capi.D.*: pairs with different symbols.dat / swkb.dat / dictionaries); plus the logger-slot witness. "
          "Records `capiget obs` (run capi_props, work package capiget): one evaluation = the answers of ALL modelled C getters "
-         "(30 groups: buffer / cursor / bopomofo / commit / aux Check, Len, String and String_static, the candidate counters, "
+         "(35 groups: buffer / cursor / bopomofo / commit / aux Check, Len, String and String_static, the candidate counters, "
          "string_by_index(_static) for every index and three indices beyond, the Enumerate/hasNext/String loop, list_has_next/prev, "
-         "the interval loop, CheckIgnore / CheckAbsorb, eleven legacy mode getters) of the REAL C context after one call of a generated "
+         "the interval loop, CheckIgnore / CheckAbsorb, eleven legacy mode getters, zuin_Check / zuin_String + count, get_phoneSeq(Len)) of the REAL C context after one call of a generated "
          "C-API history, recomputed by the Lean getter model (Model/CApiGetters.lean over the table regenerated from io.rs) from the "
          "answers of the twin editor's Rust getters; #stat capi_props.getter_records, .getter_records_with_open_list",
     trusted_base=["hook H1 (Editor::verif_snapshot, TrieBuf::verif_snapshot) is read-only; layout and conversion answers are recorded "
@@ -114,8 +114,9 @@ MANIFEST = dict(
          "check_done_iff / counters_zero_when_done, aux_check_iff_length, enumerate_then_loop, static_eq_heap_fits / static_prefix (C15), "
          "null_answers, value_mode; buffer_len_is_chars_refuted (buffer_Len counts symbols, a syllable without a word is displayed "
          "spelled out). Tie: records `capiget obs` (every call of capi_props: Lean getter model over the twin editor's Rust getters = "
-         "the real C getters; the twin editor = the Lean editor model is the `ed` correspondence). Not modelled: get_phoneSeq(Len), "
-         "zuin_*, get_KBType / KBString, get_selKey, userphrase enumeration (compared with the twin only).",
+         "the real C getters; the twin editor = the Lean editor model is the `ed` correspondence). Also modelled: the deprecated "
+         "zuin_Check (= bopomofo_Check ^ 1: zuin_is_inverted_bopomofo, -2 for NULL) / zuin_String, get_phoneSeq(Len) "
+         "(phone_seq_len_le_buffer_len). Not modelled: get_KBType / KBString, get_selKey, userphrase enumeration (compared with the twin only).",
     note="Theorem: everything stated about the Lean model (the clock / flush-level unobservability under the explicit environment "
          "hypothesis MetaBlindEnv). Correspondence: model = real editor per step and per getter (hook H1). "
          "Oracle only (no model): the C layer's purity / Reset / independence, threads. Trusted: Lean kernel (propext, "
